@@ -187,6 +187,12 @@ def provider_bank(ctx) -> None:
     ctx.check(bool(coll_loops), 'C20.bank', add, 'a reference already bound to a different class raises (collision check over every reference)', add.node, key='add:collision')
     abstract_ret = [s for s in add.body if isinstance(s, ast.If) and 'isabstract(provider)' in core.src(s.test) and any(isinstance(b, ast.Return) for b in s.body)]
     ctx.check(bool(abstract_ret), 'C20.bank', add, 'abstract providers are never registered (early return)', add.node, key='add:abstract')
+    # the guard must be the provider module's extended isabstract (class itself OR an abstract inner class, rule
+    # C20.reference/isabstract), not the bare inspect.isabstract which misses providers abstract through an inner class
+    for s in abstract_ret:
+        own = [c for c in ast.walk(s.test) if isinstance(c, ast.Call) and isinstance(c.func, ast.Name) and c.func.id == 'isabstract' and [core.src(a) for a in c.args] == ['provider']]
+        inner = 'inspect.isabstract(provider)' in core.src(s.test) and '__dict__' in core.src(s.test)
+        ctx.check(bool(own) or inner, 'C20.bank', add, 'the abstract early return uses the extended isabstract (inner classes included)', s, key='add:abstract-extended')
     for w in writes:
         ctx.check(all(graph.dominates(c, w) for c in coll_loops) and bool(coll_loops), 'C20.bank', add, 'the registry write is dominated by the collision check', w, key='add:write-after-collision')
         ctx.check(all(graph.dominates(a, w) for a in abstract_ret) and bool(abstract_ret), 'C20.bank', add, 'the registry write is dominated by the abstract early return', w, key='add:write-after-abstract')
